@@ -173,7 +173,7 @@ class Dec:
         c, b = max(cands, key=lambda cb: len(cb[0].tag))
         fields = [it for it in c.items if it[0] == 'field']
         r.take(len(c.tag))
-        if c.name == '_' and c.tag == '' and len(fields) == 1 and fields[0][1] is None and fields[0][2][0] != 'cellref':
+        if c.tag == '' and len(fields) == 1 and fields[0][1] is None and fields[0][2][0] != 'cellref':
             return self.type(fields[0][2], dict(b), r, path)
         if c.exotic and getattr(r.cell, 'type_', -1) != int(c.tag[:8], 2):
             raise DecodeError(f'{path}: {c.name} must be an exotic cell of type {int(c.tag[:8], 2)}')
